@@ -16,6 +16,17 @@ ASSUMPTIONS = ['click parses -s/-e/-f as decimal; -e < 0 means "no end"']
 def gen_case(rng, tier):
     cfg = P.gen_cfg(rng)
     stmts = P.gen_program(rng, cfg, allow_bad=0.03, weights={'mute': 1.2, 'macro': 1})
+    tail_empty = False
+    if rng.random() < 0.15:
+        # a line that emits nothing, far behind the last emitted byte: an open-ended window ends at the highest address that
+        # RECEIVED A BYTE, not at the highest address a line was placed at
+        hi = (1 << cfg['bits']) - 1
+        far = min(hi, cfg.get('origin', 0) + rng.randint(30, 90))
+        stmts += [{'k': 'org', 'e': ('num', far)},
+                  rng.choice([{'k': 'fill', 'cnt': ('num', 0), 'val': ('num', rng.randint(0, 255))},
+                              {'k': 'zerountil', 'a': ('num', max(0, far - rng.randint(1, 5)))},
+                              {'k': 'fill', 'cnt': ('bin', '-', ('num', 3), ('num', 3)), 'val': ('num', 1)}])]
+        tail_empty = True
     tr_addrs = []
     # window: aim at line boundaries by replaying a tracker-free guess: use small offsets around typical addresses
     base = cfg.get('origin', 0)
@@ -28,7 +39,10 @@ def gen_case(rng, tier):
     else:
         end = max(0, start - rng.randint(1, 3))     # empty window
     fill = rng.choice([0, 0, 0xFF, rng.randint(0, 255), 256 + rng.randint(0, 300)])
-    return {'cfg': cfg, 'files': [stmts], 'start': start, 'end': end, 'fill': fill, 'seed': rng.randrange(1 << 30)}
+    if tail_empty and rng.random() < 0.8:
+        end = None
+    return {'cfg': cfg, 'files': [stmts], 'start': start, 'end': end, 'fill': fill, 'seed': rng.randrange(1 << 30),
+            'tail_empty': tail_empty}
 
 
 def aim_windows(rng, cases):
@@ -41,7 +55,7 @@ def aim_windows(rng, cases):
     except Exception:
         return
     for c, r in zip(cases, res):
-        if not r.get('lines') or rng.random() < 0.4:
+        if not r.get('lines') or rng.random() < 0.4 or (c.get('tail_empty') and c['end'] is None):
             continue
         ls = [l for l in r['lines'] if l['isByte'] and l['bytes'] and l['addr'] >= 0]
         if not ls:
@@ -119,6 +133,8 @@ def judge(case, ir, mr):
     both = any(l['addr'] < s and e is not None and e < l['addr'] + len(l['bytes']) - 1 for l in lines if not l['muted'])
     if both:
         tags.append('window-strictly-inside-one-line')
+    if case.get('tail_empty'):
+        tags.append('empty-line-behind-last-byte')
     if case.get('aimed'):
         tags.append('aimed:' + case['aimed'])
     if cut:
